@@ -186,34 +186,33 @@ def xfStmt {σ} (f : Xf σ) (sch : Schema) (s : Stmt) (st : σ) : Stmt × σ :=
 
 /-! ### bound parameters (`OnBind`) -/
 
-/-- `updatePlaceholderMap` after `index--`; `none` = ErrInvalidPlaceholder / ErrInconsistentPlaceholder.
+/-- `updatePlaceholderMap` (after `index--`); `none` = ErrInvalidPlaceholder / ErrInconsistentPlaceholder.
 The map is kept as an association list, newest first. -/
-def placeholderAdd (count : Nat) (m : List (Int × Name)) (index : Int) (c : Name) : Option (List (Int × Name)) :=
+def placeholderAdd (count : Nat) (m : List (Nat × Name)) (index : Nat) (c : Name) : Option (List (Nat × Name)) :=
   if index ≥ count then none else
   match m.find? (·.1 == index) with
   | some (_, n) => if n ≠ c then none else some m
   | none => some ((index, c) :: m)
 
-/-- the 1-based placeholder number the code reads off a value: `GetParamRef().GetNumber()` is 0 for
-everything that is not a bare `$n` -/
-def Cell.paramNumber : Cell → Nat
-  | .param i => i
-  | _ => 0
+/-- one value of VALUES / SET: only bare placeholders `$n` are mapped (after the `fix:` commit; literals
+and other expressions are skipped) -/
+def placeholderCell (count : Nat) (m : List (Nat × Name)) (c : Name) : Cell → Option (List (Nat × Name))
+  | .param i => placeholderAdd count m (i - 1) c
+  | _ => some m
+
+def placeholdersRow (count : Nat) : List Name → List Cell → List (Nat × Name) → Option (List (Nat × Name))
+  | c :: cs, v :: vs, m => (placeholderCell count m c v).bind (placeholdersRow count cs vs)
+  | _, _, m => some m
 
 /-- `getInsertPlaceholders`: walk all rows; `valuesCount` accumulates over the rows seen so far -/
-def insertPlaceholdersRows (cols : List Name) : List (List Cell) → Nat → List (Int × Name) → Option (List (Int × Name))
+def insertPlaceholdersRows (cols : List Name) : List (List Cell) → Nat → List (Nat × Name) → Option (List (Nat × Name))
   | [], _, m => some m
-  | r :: rs, cnt, m =>
-    let cnt' := cnt + r.length
-    let rec go : List Name → List Cell → List (Int × Name) → Option (List (Int × Name))
-      | c :: cs, v :: vs, m => (placeholderAdd cnt' m ((v.paramNumber : Int) - 1) c).bind (go cs vs)
-      | _, _, m => some m
-    (go cols r m).bind (insertPlaceholdersRows cols rs cnt')
+  | r :: rs, cnt, m => (placeholdersRow (cnt + r.length) cols r m).bind (insertPlaceholdersRows cols rs (cnt + r.length))
 
-/-- `encryptUpdateValues`: every SET target, placeholder or not -/
-def updatePlaceholders (nvalues : Nat) : List (Name × Cell) → List (Int × Name) → Option (List (Int × Name))
+/-- `encryptUpdateValues`: the SET targets -/
+def updatePlaceholders (nvalues : Nat) : List (Name × Cell) → List (Nat × Name) → Option (List (Nat × Name))
   | [], m => some m
-  | (c, v) :: rest, m => (placeholderAdd nvalues m ((v.paramNumber : Int) - 1) c).bind (updatePlaceholders nvalues rest)
+  | (c, v) :: rest, m => (placeholderCell nvalues m c v).bind (updatePlaceholders nvalues rest)
 
 /-- outcome of analysing a Bind against its statement -/
 inductive BindPlan where
@@ -221,18 +220,15 @@ inductive BindPlan where
   | untouched
   /-- error: parameters forwarded as received (the error is only logged) -/
   | error
-  /-- the code indexes `values[-1]`: run-time panic, the connection is dropped -/
-  | panic
   /-- parameter index (0-based) ↦ setting, for the parameters that are transformed -/
   | plan (m : List (Nat × ColSetting))
 deriving Repr
 
-/-- from the placeholder map to the plan (`encryptValuesWithPlaceholders` iterates the map):
-a negative index whose column is configured makes the code panic -/
-def planOf (t : Table) (m : List (Int × Name)) : BindPlan :=
-  if m.any (fun (i, c) => i < 0 && (t.setting c).isSome) then .panic else
-  .plan (m.filterMap fun (i, c) => (t.setting c).map fun s => (i.toNat, s))
+/-- from the placeholder map to the plan (`encryptValuesWithPlaceholders` iterates the map) -/
+def planOf (t : Table) (m : List (Nat × Name)) : BindPlan :=
+  .plan (m.filterMap fun (i, c) => (t.setting c).map fun s => (i, s))
 
+/-- `QueryDataEncryptor.OnBind` -/
 def bindPlan (sch : Schema) (s : Stmt) (nvalues : Nat) : BindPlan :=
   match s with
   | .insert i =>
